@@ -12,7 +12,7 @@ def sh(cmd, cwd=None, timeout=7200):
     return p.returncode, p.stdout
 
 def main():
-    md, pid, name = Path(sys.argv[1]), sys.argv[2], sys.argv[3]
+    md, pid, name = Path(sys.argv[1]).resolve(), sys.argv[2], sys.argv[3]
     base = Path('/tmp/mv_' + name)
     sh('git -C /repo worktree remove --force %s/repo' % base); shutil.rmtree(base, ignore_errors=True)
     base.mkdir(parents=True)
